@@ -149,6 +149,16 @@ impl VPeerTracker {
         self.inner.gc()
     }
 
+    /// See `peer_tracker::verif_hooks::age_disconnected`.
+    pub fn age_disconnected(&mut self, peer: &PeerId, by: Duration) -> bool {
+        crate::peer_tracker::verif_hooks::age_disconnected(&mut self.inner, peer, by)
+    }
+
+    /// See `peer_tracker::verif_hooks::is_expired`.
+    pub fn is_expired(&self, peer: &PeerId) -> bool {
+        crate::peer_tracker::verif_hooks::is_expired(&self.inner, peer)
+    }
+
     pub fn is_connected(&self, peer: &PeerId) -> bool {
         self.inner.is_connected(peer)
     }
